@@ -297,6 +297,9 @@ func c14Walker(c *Ctx) {
 				if cp.Name() != "field" || k >= len(call.Common().Args) {
 					continue
 				}
+				if b, isB := cp.Type().Underlying().(*types.Basic); !isB || b.Kind() != types.String {
+					continue // a helper that is handed the selection itself
+				}
 				arg := an.Strip(call.Common().Args[k])
 				if _, isParam := arg.(*ssa.Parameter); isParam {
 					continue
@@ -308,7 +311,7 @@ func c14Walker(c *Ctx) {
 			}
 		}
 	}
-	if nLoop < 2 || nPass < 3 || nName < 2 {
+	if nLoop < 2 || nPass < 3 || nName < 1 {
 		c.R.Fail("walker: %d loops, %d pass-through arguments, %d field-name arguments examined", nLoop, nPass, nName)
 	}
 	// safeAdd with exactly one negative operand
